@@ -52,7 +52,7 @@ class RestoreArgParser:
             return PrintVersionArgs(argv0=sys_argv[0])
         else:
             path = os.path.normpath(
-                os.path.join(curdir + os.path.sep, parsed.path))
+                os.path.join(curdir, parsed.path))
 
             return RunRestoreArgs(path=path,
                                   sort=cast(Sort, {
